@@ -93,6 +93,7 @@ func doBind(sc *Collection, originalInvokeF *provider, originalInitF *provider, 
 			funcs = insertAt(funcs, len(funcs)-1, d)
 		}
 	}
+	verifDump("S3", isReal, funcs, invokeIndex, nil, nil, 0, initF)
 
 	// Figure out which providers must be included in the final chain.  To do this,
 	// first we figure out where each provider will get its inputs from when going
@@ -409,6 +410,7 @@ func doBind(sc *Collection, originalInvokeF *provider, originalInitF *provider, 
 		debugln("SET INVOKE FUNC - DONE")
 	}
 
+	verifDump("S7", isReal, funcs, invokeIndex, downVmap, upVmap, vCount, initF)
 	return nil
 }
 
